@@ -63,7 +63,7 @@ def instances(tier, seed):
             for q in ([(0, 1, 2, 4), (3, 5, 0, 2)] if tier == "quick" else list(itertools.product(one_comp[:4], repeat=4))[::9]):
                 out.append(dict(shape=shape, leaves=list(q), label="%s leaves=%s" % (shape, q), key=shape))
         elif shape in ("simplify", "simplify_merge"):
-            for q in [(0, 0, 1, 4), (4, 4, 3, 0), (2, 1, 2, 1), (5, 5, 0, 3), (3, 3, 3, 1)]:
+            for q in [(0, 0, 1, 4), (4, 4, 3, 0), (2, 1, 2, 1), (5, 5, 0, 3), (3, 3, 3, 1), (0, 1, 0, 4, 0), (2, 0, 2, 2, 1), (1, 0, 1, 2, 1, 0, 1)]:
                 out.append(dict(shape=shape, leaves=list(q), label="%s leaves=%s" % (shape, q), key=shape))
             out.append(dict(shape=shape, leaves=[6, 6, 7, 7], label="%s two-component qn leaves=(6,6,7,7)" % shape, key=shape + "/2qn"))
     return out
